@@ -34,13 +34,17 @@ type entry struct {
 }
 
 type popCase struct {
-	Name    string // appender file name
-	MaxAge  int    // hours
-	Entries []entry
-	Sibling bool // also a "<name>.wf" appender in the same directory
-	Second  bool // run a second scan of the same appender after more expired files appeared
-	DirForm int  // how FileDir is spelled: 0 as is, 1 trailing slash, 2 doubled slash, 3 "/./" inside, 4 relative with "./", 5 a symbolic link to it
-	Outage  bool // an earlier scan of the same appender found the directory gone (listing failed)
+	Name   string // appender file name
+	MaxAge int    // hours
+	// IntervalM: the appender's rotation interval in minutes. The built-in policies stop at one hour,
+	// an application may register a daily or weekly one; a maximum age is what was configured,
+	// whatever the interval.
+	IntervalM int
+	Entries   []entry
+	Sibling   bool // also a "<name>.wf" appender in the same directory
+	Second    bool // run a second scan of the same appender after more expired files appeared
+	DirForm   int  // how FileDir is spelled: 0 as is, 1 trailing slash, 2 doubled slash, 3 "/./" inside, 4 relative with "./", 5 a symbolic link to it
+	Outage    bool // an earlier scan of the same appender found the directory gone (listing failed)
 }
 
 func (c popCase) String() string {
@@ -52,7 +56,7 @@ func (c popCase) String() string {
 		}
 		p = append(p, fmt.Sprintf("%s%s@%dmin", e.Name, d, e.AgeMin))
 	}
-	return fmt.Sprintf("name=%q maxAge=%dh sibling=%v second=%v outage=%v dirForm=%d entries=[%s]", c.Name, c.MaxAge, c.Sibling, c.Second, c.Outage, c.DirForm, strings.Join(p, " "))
+	return fmt.Sprintf("name=%q maxAge=%dh interval=%dm sibling=%v second=%v outage=%v dirForm=%d entries=[%s]", c.Name, c.MaxAge, c.IntervalM, c.Sibling, c.Second, c.Outage, c.DirForm, strings.Join(p, " "))
 }
 
 var digits14 = rapid.OneOf(
@@ -63,12 +67,13 @@ var digits14 = rapid.OneOf(
 
 func genCase(t *rapid.T) popCase {
 	c := popCase{
-		Name:    rapid.SampledFrom([]string{"app.log", "svc", "a.b.c", "x-y_z.log", "app.log.wf", "log", "access+1.log"}).Draw(t, "name"),
-		MaxAge:  rapid.SampledFrom([]int{1, 2, 24, 168, 720, 3, 48}).Draw(t, "maxAge"),
-		Sibling: rapid.Bool().Draw(t, "sibling"),
-		Second:  rapid.Bool().Draw(t, "secondScan"),
-		Outage:  rapid.IntRange(0, 3).Draw(t, "outageScan") == 0,
-		DirForm: rapid.SampledFrom([]int{0, 0, 1, 2, 3, 4, 5}).Draw(t, "dirForm"),
+		Name:      rapid.SampledFrom([]string{"app.log", "svc", "a.b.c", "x-y_z.log", "app.log.wf", "log", "access+1.log"}).Draw(t, "name"),
+		MaxAge:    rapid.SampledFrom([]int{1, 2, 24, 168, 720, 3, 48}).Draw(t, "maxAge"),
+		Sibling:   rapid.Bool().Draw(t, "sibling"),
+		Second:    rapid.Bool().Draw(t, "secondScan"),
+		Outage:    rapid.IntRange(0, 3).Draw(t, "outageScan") == 0,
+		DirForm:   rapid.SampledFrom([]int{0, 0, 1, 2, 3, 4, 5}).Draw(t, "dirForm"),
+		IntervalM: rapid.SampledFrom([]int{60, 60, 1440, 10080, 30, 10, 2880}).Draw(t, "intervalM"),
 	}
 	if rapid.Bool().Draw(t, "anyAge") {
 		c.MaxAge = rapid.IntRange(1, 720).Draw(t, "maxAgeAny")
@@ -166,12 +171,12 @@ func init() {
 	be32 := func(v int64) []byte { return []byte{byte(v >> 24), byte(v >> 16), byte(v >> 8), byte(v)} }
 	var b []byte
 	b = append(b, "TZif"...)
-	b = append(b, make([]byte, 16)...)       // version 1 + reserved
+	b = append(b, make([]byte, 16)...)            // version 1 + reserved
 	for _, n := range []int64{0, 0, 0, 1, 2, 8} { // isutcnt isstdcnt leapcnt timecnt typecnt charcnt
 		b = append(b, be32(n)...)
 	}
-	b = append(b, be32(sw)...)                  // the transition
-	b = append(b, 1)                            // ... to type 1
+	b = append(b, be32(sw)...)                 // the transition
+	b = append(b, 1)                           // ... to type 1
 	b = append(b, append(be32(3600), 0, 0)...) // type 0: +01:00, standard, "STD"
 	b = append(b, append(be32(7200), 1, 4)...) // type 1: +02:00, DST, "DST"
 	b = append(b, "STD\x00DST\x00"...)
@@ -181,8 +186,15 @@ func init() {
 }
 
 func newAppender(dir, name string, maxAge int) *log.RollingFileAppender {
+	return newAppenderEvery(dir, name, maxAge, 60)
+}
+
+func newAppenderEvery(dir, name string, maxAge, intervalM int) *log.RollingFileAppender {
+	if intervalM == 0 {
+		intervalM = 60
+	}
 	return &log.RollingFileAppender{AppenderBase: log.AppenderBase{Name: "r"}, Layout: &log.TextLayout{BaseLayout: log.BaseLayout{FileLineLength: 48}},
-		FileDir: dir, FileName: name, Rotation: log.TimeRotation{Interval: time.Hour}, MaxAge: int32(maxAge)}
+		FileDir: dir, FileName: name, Rotation: log.TimeRotation{Interval: time.Duration(intervalM) * time.Minute}, MaxAge: int32(maxAge)}
 }
 
 // verdict: -1 must be deleted, +1 must survive, 0 either (within a minute of the cut-off)
@@ -202,14 +214,14 @@ func verdict(appName string, maxAge int, e entry) int {
 }
 
 func runCase(c popCase, dir string) error {
-	a := newAppender(spell(dir, c.DirForm), c.Name, c.MaxAge)
+	a := newAppenderEvery(spell(dir, c.DirForm), c.Name, c.MaxAge, c.IntervalM)
 	if err := a.Start(); err != nil {
 		return fmt.Errorf("VERIF-INCONCLUSIVE: %v", err)
 	}
 	defer a.Stop()
 	var sib *log.RollingFileAppender
 	if c.Sibling {
-		sib = newAppender(dir, c.Name+".wf", c.MaxAge)
+		sib = newAppenderEvery(dir, c.Name+".wf", c.MaxAge, c.IntervalM)
 		if err := sib.Start(); err != nil {
 			return fmt.Errorf("VERIF-INCONCLUSIVE: %v", err)
 		}
@@ -442,7 +454,7 @@ func TestC14_RealRotation(t *testing.T) {
 		log.Destroy()
 		if err := log.Refresh(map[string]string{
 			"appender.unused.type": "Discard",
-			"logger.rl.type":     "RollingFile", "logger.rl.tags": "_c14_rl", "logger.rl.fileDir": dir, "logger.rl.fileName": "app.log",
+			"logger.rl.type":       "RollingFile", "logger.rl.tags": "_c14_rl", "logger.rl.fileDir": dir, "logger.rl.fileName": "app.log",
 			"logger.rl.rotation": "1s", "logger.rl.maxAge": "1", "logger.rl.separate": strconv.FormatBool(separate), "logger.rl.async": "false",
 		}); err != nil {
 			t.Fatalf("VERIF-INCONCLUSIVE C14: %v", err)
